@@ -724,8 +724,18 @@ fn gen_c07(tier: &str, rng: &mut Rng) -> Vec<Case> {
                 let html = format!("<h{}>{}</h{}>", lvl, inl, lvl);
                 let id = cases.len();
                 let w = rng.range(4, 100);
-                let cfg = Cfg { deco, footnotes: 2, ..Default::default() };
-                let (pf, pw) = if deco == 3 { (String::new(), 0) } else { (p.clone(), p.len()) };
+                let mut cfg = Cfg { deco, footnotes: 2, ..Default::default() };
+                let (mut pf, mut pw) = if deco == 3 { (String::new(), 0) } else { (p.clone(), p.len()) };
+                // one in four: a decorator of the custom family whose heading unit may be wider or
+                // longer in bytes than one column: the content is wrapped at the width less the
+                // DISPLAY width of the marker
+                if rng.chance(1, 4) {
+                    let custom = rand_custom(rng);
+                    pf = format!("{} ", custom[12].repeat(lvl));
+                    pw = str_width(&pf);
+                    cfg.deco = 4;
+                    cfg.custom = custom;
+                }
                 let mut c1 = mk_case(id, 0, cfg.clone(), w, html.into_bytes(), Some(0), Meta::G { role: "outer", strs: vec![pf.clone(), pf], nums: vec![] }, "heading");
                 c1.group = gi;
                 cases.push(c1);
